@@ -224,3 +224,207 @@ Example kf1_not_corrupt_safe :
   /\ corrupt_cl D53 0 (segment [97;8203;769]%N) [0;0;0]%Z = Some [[97];[32];[8203];[32];[769]]%N
   /\ segment [97;32;8203;32;769]%N = [[97];[32];[8203];[32;769]]%N.
 Proof. vm_compute. repeat split; reflexivity. Qed.
+
+(** ** the generator inside the model ("seed in, behaviour out"; C14_Seeded.v, RNG_Model.v)
+
+    [corrupt_seeded iw dw seed t]: what the text function built by [corrupt_whitespace] returns for
+    the text [t] (a cluster list) and [info.seed = seed]: the generator is
+    [ChaCha8Rng::seed_from_u64 seed] and [random::<f64>()] is drawn once per character inside the
+    loop, where the code draws.  [stream seed n]: the first n draws as numerators over 2^53.
+    [thr p]: the integer threshold of the f64 comparison [r < p] for an arbitrary binary64 [p]. *)
+From TU Require Import RNG_Model RNG_Proofs.
+From TU Require Import C14_Seeded C14_Seeded_Proofs.
+
+(** seeded run = oracle run, under an oracle that satisfies the guard of every theorem above:
+    one draw per character, every draw in [0, 2^53).  The guard is discharged, not assumed. *)
+Theorem seeded_oracle : forall iw dw seed t,
+  let ks := stream seed (length t) in
+  length ks = length t /\ in_range ks /\ corrupt_cl iw dw t ks = Some (corrupt_seeded iw dw seed t).
+Proof. exact seeded_oracle_l. Qed.
+Print Assumptions seeded_oracle.
+
+(** the stream of a seed is prefix-stable: a longer text sees the same first draws *)
+Theorem seeded_stream_prefix : forall seed n m, (n <= m)%nat -> firstn n (stream seed m) = stream seed n.
+Proof. exact stream_prefix. Qed.
+Print Assumptions seeded_stream_prefix.
+
+(** hence every theorem about [corrupt_cl] holds of the seeded function, for every seed, with no
+    premise about the random stream left *)
+Theorem corrupt_nonws_seeded : forall iw dw seed t,
+  strip (corrupt_seeded iw dw seed t) = strip t
+  /\ strip_cp (concat (corrupt_seeded iw dw seed t)) = strip_cp (concat t).
+Proof. exact nonws_seeded_l. Qed.
+Print Assumptions corrupt_nonws_seeded.
+
+Theorem corrupt_clean_seeded : forall iw dw seed t, Clean t -> Clean (corrupt_seeded iw dw seed t).
+Proof. exact clean_seeded_l. Qed.
+Print Assumptions corrupt_clean_seeded.
+
+Theorem corrupt_clean_cp_seeded : forall iw dw seed t,
+  Clean t -> C11_Model.wf_seg t = true -> C11_Model.cleansb (concat (corrupt_seeded iw dw seed t)) = true.
+Proof. exact clean_cp_seeded_l. Qed.
+Print Assumptions corrupt_clean_cp_seeded.
+
+Theorem corrupt_labels_seeded : forall iw dw seed t, Clean t ->
+  let out := corrupt_seeded iw dw seed t in
+  exists ops, operations out t = Some ops /\ length ops = length out /\ repair out ops = Some (concat t).
+Proof. exact labels_seeded_l. Qed.
+Print Assumptions corrupt_labels_seeded.
+
+Theorem corrupt_dw0_seeded : forall iw dw seed t, clamp dw = 0%Z ->
+  let out := corrupt_seeded iw dw seed t in
+  DelR (eq [32%N]) out t /\ DelR (fun x => is32 x = true) (concat out) (concat t).
+Proof. exact dw0_seeded_l. Qed.
+Print Assumptions corrupt_dw0_seeded.
+
+Theorem corrupt_iw0_seeded : forall iw dw seed t, clamp iw = 0%Z ->
+  let out := corrupt_seeded iw dw seed t in
+  DelR (fun c => cl_ws c = true) t out /\
+  (Clean t -> DelR (eq [32%N]) t out /\ DelR (fun x => is32 x = true) (concat t) (concat out)).
+Proof. exact iw0_seeded_l. Qed.
+Print Assumptions corrupt_iw0_seeded.
+
+Theorem corrupt_extreme_seeded : forall seed t, corrupt_seeded 0 D53 seed t = strip t.
+Proof. exact extreme_seeded_l. Qed.
+Print Assumptions corrupt_extreme_seeded.
+
+(** code-point mode, string level: for EVERY whitespace-clean string, probabilities and seed *)
+Theorem corrupt_cp_seeded : forall iw dw seed s, C11_Model.cleansb s = true ->
+  let out := corrupt_seeded iw dw seed (singletons s) in
+  let c := concat out in
+  singletons c = out
+  /\ strip_cp c = strip_cp s
+  /\ C11_Model.cleansb c = true
+  /\ exists ops, operations (singletons c) (singletons s) = Some ops
+                 /\ length ops = length c
+                 /\ repair (singletons c) ops = Some s.
+Proof. exact cp_seeded_l. Qed.
+Print Assumptions corrupt_cp_seeded.
+
+(** grapheme mode, segmenter and generator inside the model: statements about (string, seed) alone *)
+Theorem corrupt_nonws_u_seeded : forall iw dw seed s,
+  strip_cp (concat (corrupt_seeded iw dw seed (segment s))) = strip_cp s.
+Proof. exact nonws_u_seeded_l. Qed.
+Print Assumptions corrupt_nonws_u_seeded.
+
+Theorem corrupt_clean_u_seeded : forall iw dw seed s,
+  C11_Model.cleansb s = true -> no_mixedb s = true ->
+  C11_Model.cleansb (concat (corrupt_seeded iw dw seed (segment s))) = true.
+Proof. exact clean_u_seeded_l. Qed.
+Print Assumptions corrupt_clean_u_seeded.
+
+Theorem corrupt_stable_u_seeded : forall iw dw seed s,
+  C11_Model.cleansb s = true -> corrupt_safe s = true ->
+  segment (concat (corrupt_seeded iw dw seed (segment s))) = corrupt_seeded iw dw seed (segment s).
+Proof. exact stable_u_seeded_l. Qed.
+Print Assumptions corrupt_stable_u_seeded.
+
+Theorem corrupt_labels_u_seeded : forall iw dw seed s,
+  C11_Model.cleansb s = true -> corrupt_safe s = true ->
+  let c := concat (corrupt_seeded iw dw seed (segment s)) in
+  strip_cp c = strip_cp s
+  /\ C11_Model.cleansb c = true
+  /\ exists ops, operations (segment c) (segment s) = Some ops
+                 /\ length ops = length (segment c)
+                 /\ repair (segment c) ops = Some s.
+Proof. exact labels_u_seeded_l. Qed.
+Print Assumptions corrupt_labels_u_seeded.
+
+Theorem corrupt_kf1_outside_seeded : forall iw dw seed s,
+  C11_Model.cleansb s = true -> corrupt_safe s = true ->
+  C14_Seam.kf1b s (corrupt_seeded iw dw seed (segment s)) = false.
+Proof. exact kf1_outside_seeded_l. Qed.
+Print Assumptions corrupt_kf1_outside_seeded.
+
+(** the f64 comparison.  For a finite non-negative binary64 p = m * 2^e and a draw r = k / 2^53:
+    [k < thr p] iff r < p as real numbers (cross-multiplied); comparing with the clamped
+    threshold is the same for a draw in range; the constructor's [p.clamp(0., 1.) > 0.] is [m > 0]
+    (true for +inf, false for NaN and negative values). *)
+Theorem thr_spec : forall k m e, (k < thr (Fin m e))%Z <-> lt_real k m e.
+Proof. exact thr_spec_l. Qed.
+Print Assumptions thr_spec.
+
+Theorem thr_clamp : forall k T, (0 <= k < D53)%Z -> ((k < clamp T)%Z <-> (k < T)%Z).
+Proof. exact clamp_lt. Qed.
+Print Assumptions thr_clamp.
+
+Theorem thr_accept : forall p, (0 <? clamp (thr p))%Z = true <->
+  match p with Fin m _ => (0 < m)%N | FInf => True | _ => False end.
+Proof. exact thr_pos_l. Qed.
+Print Assumptions thr_accept.
+
+(** val level.  On an input whose oracle fields are right — the replicated stream is the stream of
+    the seed and the integer thresholds are those of the probabilities ([seeded_xcheck], evaluated
+    on every case by [agree]), the cluster lists are [CharString::new] of their text
+    ([seg_consistent]) — the seeded run IS the oracle run ... *)
+Theorem run_seeded_eq : forall v,
+  seeded_xcheck v = true -> length (in_ks v) = length (in_text v) -> seg_consistent v ->
+  run_C14s v = run_C14 v.
+Proof. exact run_seeded_eq_l. Qed.
+Print Assumptions run_seeded_eq.
+
+(** ... and it reads nothing but (mode, text, seed, prefix/suffix counts, probabilities):
+    "a deterministic function of (text, seed)", for the actual generator *)
+Theorem run_seeded_reads : forall v v',
+  v_bool (v_nth 0 v) = v_bool (v_nth 0 v') -> in_str v = in_str v' -> in_seed v = in_seed v' ->
+  in_iwf v = in_iwf v' -> in_dwf v = in_dwf v' -> in_np v = in_np v' -> in_ns v = in_ns v' ->
+  run_C14s v = run_C14s v'.
+Proof. exact run_seeded_reads_l. Qed.
+Print Assumptions run_seeded_reads.
+
+Theorem check_run_seeded : forall v,
+  seeded_xcheck v = true -> length (in_ks v) = length (in_text v) -> seg_consistent v ->
+  (v_bool (v_nth 0 v) = true -> premise (in_text v) = true ->
+   C11_Model.cleansb (in_str v) = true /\ corrupt_safe (in_str v) = true) ->
+  check_C14 v (run_C14s v) = true.
+Proof. exact check_run_seeded_l. Qed.
+Print Assumptions check_run_seeded.
+
+(** the input built by the model from (text, seed, probabilities) alone passes all of [agree]'s
+    side conditions and the executable statement, for every corrupt-safe text *)
+Theorem check_run_u_seeded : forall s seed pi pd np ns,
+  corrupt_safe s = true ->
+  let v := input_of_s s seed pi pd np ns in
+  check_C14 v (run_C14s v) = true /\ C14_Seam.uax29_agree v = true /\ C14_Seam.xcheck v = true
+  /\ seeded_xcheck v = true.
+Proof. exact check_run_u_seeded_l. Qed.
+Print Assumptions check_run_u_seeded.
+
+(** the two facts about the modelled generator this rests on (RNG_Props.v), re-pinned so that every
+    run of this check audits them *)
+Theorem rng_seed_wf : forall seed, RNG_Proofs.wf (seed_from_u64 seed).
+Proof. exact RNG_Proofs.wf_seed. Qed.
+Print Assumptions rng_seed_wf.
+
+Theorem rng_random_f64_range : forall st k st', RNG_Proofs.wf st -> random_f64 st = (k, st') ->
+  (k < 9007199254740992)%N /\ RNG_Proofs.wf st'.
+Proof. exact RNG_Proofs.random_f64_spec. Qed.
+Print Assumptions rng_random_f64_range.
+
+(** non-vacuity / known answers.  The r-stream of seed 606828435927674809 and the corrupted text
+    are what the REAL crate produced (harness run, grapheme mode, "b . ca.c", iw = dw = 0.5);
+    0.1 is not a multiple of 2^-53: its threshold is the ceiling; a probability equal to the first
+    draw does not fire, its successor in binary64 does *)
+Example seeded_stream_known : stream 606828435927674809 8 =
+  [8749249387951582; 5265228298964896; 2835095240244102; 2689799241078383;
+   2950008404175043; 2686608778910248; 1405144833155129; 3346493577821043]%Z.
+Proof. vm_compute. reflexivity. Qed.
+Example seeded_run_known :
+  corrupt_seeded (thr (Fin 4503599627370496 (-53))) (thr (Fin 4503599627370496 (-53))) 606828435927674809
+                 (segment [98;32;46;32;99;97;46;99]%N)
+  = [[98];[32];[46];[99];[32];[97];[32];[46];[32];[99]]%N.
+Proof. vm_compute. reflexivity. Qed.
+Example thr_tenth : thr (Fin 7205759403792794 (-56)) = 900719925474100%Z
+  /\ (900719925474099 * 8 < 7205759403792794 < 900719925474100 * 8)%Z.
+Proof. vm_compute. repeat split; reflexivity. Qed.
+Example thr_boundary :
+  let r0 := 8749249387951582%N in   (* first draw of the seed above, r0 / 2^53 > 1/2 *)
+  corrupt_seeded 0 (thr (Fin r0 (-53))) 606828435927674809 [[32]]%N = [[32]]%N
+  /\ corrupt_seeded 0 (thr (Fin (r0 + 1) (-53))) 606828435927674809 [[32]]%N = [].
+Proof. vm_compute. split; reflexivity. Qed.
+Example check_run_u_seeded_witness :
+  let v := input_of_s [97;98;32;101;769;99;32;127462;127463;32;127464]%N 22
+                      (Fin 7205759403792794 (-56)) (Fin 6004799503160661 (-54)) 1 1 in
+  corrupt_safe [97;98;32;101;769;99;32;127462;127463;32;127464]%N = true
+  /\ agree_C14s v (run_C14s v) (run_C14s v) = true.
+Proof. vm_compute. split; reflexivity. Qed.
